@@ -210,6 +210,37 @@ fn dec<T: Deserializable>(what: &str, b: &[u8]) -> Res<T> {
     guard(|| T::from_bytes(b))?.map_err(|e| Fail::Decode(what.to_string(), e.into()))
 }
 
+// Key objects live as long as the simulated party that owns them: a recipient decodes its private key
+// once and uses that *object* for every session, it does not re-parse the bytes per call. The cache
+// is per thread and per scope (= world); outside any scope every call decodes afresh.
+thread_local! {
+    static KEY_SCOPE: std::cell::Cell<u64> = const { std::cell::Cell::new(0) };
+    static KEY_OBJS: std::cell::RefCell<std::collections::HashMap<(u64, std::any::TypeId, Vec<u8>), std::rc::Rc<dyn std::any::Any>>> = std::cell::RefCell::new(std::collections::HashMap::new());
+}
+/// Enter a key-object scope (0 = none); returns the previous one
+pub fn set_key_scope(id: u64) -> u64 {
+    KEY_SCOPE.with(|s| s.replace(id))
+}
+pub fn purge_key_scope(id: u64) {
+    let _ = KEY_OBJS.try_with(|m| m.borrow_mut().retain(|k, _| k.0 != id));
+}
+fn cached<T: Deserializable + 'static>(what: &str, b: &[u8]) -> Res<std::rc::Rc<T>> {
+    let scope = KEY_SCOPE.with(|s| s.get());
+    if scope == 0 {
+        return Ok(std::rc::Rc::new(dec::<T>(what, b)?));
+    }
+    let key = (scope, std::any::TypeId::of::<T>(), b.to_vec());
+    if let Some(o) = KEY_OBJS.with(|m| m.borrow().get(&key).cloned()) {
+        if let Ok(t) = o.downcast::<T>() {
+            return Ok(t);
+        }
+    }
+    let t = std::rc::Rc::new(dec::<T>(what, b)?);
+    let any: std::rc::Rc<dyn std::any::Any> = t.clone();
+    KEY_OBJS.with(|m| m.borrow_mut().insert(key, any));
+    Ok(t)
+}
+
 #[derive(Clone, Debug, Default)]
 pub struct ModeS {
     pub kind: Option<ModeKind>,
@@ -240,6 +271,9 @@ pub struct Scan {
     /// offsets at which each pattern was found in the slot before / after the drop
     pub before: Vec<Vec<usize>>,
     pub after: Vec<Vec<usize>>,
+    /// bit i: pattern i was found in a heap block freed by the destructor; number of blocks it freed
+    pub heap_hits: u32,
+    pub heap_blocks: u64,
 }
 impl Scan {
     /// The pattern was observable in the live value
@@ -296,7 +330,8 @@ pub trait Suite: Sync {
     fn setup_receiver(&self, mode: &ModeR, sk_r: &[u8], enc: &[u8], info: &[u8]) -> Res<Box<dyn Receiver>>;
     fn ss_seal(&self, mode: &ModeS, pk_r: &[u8], info: &[u8], pt: &[u8], aad: &[u8], rng: &mut ScriptRng) -> Res<(Vec<u8>, Vec<u8>)>;
     /// returns (enc, ct, tag)
-    fn ss_seal_in_place(&self, mode: &ModeS, pk_r: &[u8], info: &[u8], pt: &[u8], aad: &[u8], rng: &mut ScriptRng) -> Res<(Vec<u8>, Vec<u8>, Vec<u8>)>;
+    /// `buf`: the caller's buffer (plaintext in; left as the library leaves it, also on failure)
+    fn ss_seal_in_place(&self, mode: &ModeS, pk_r: &[u8], info: &[u8], buf: &mut Vec<u8>, aad: &[u8], rng: &mut ScriptRng) -> Res<(Vec<u8>, Vec<u8>, Vec<u8>)>;
     fn ss_open(&self, mode: &ModeR, sk_r: &[u8], enc: &[u8], info: &[u8], ct: &[u8], aad: &[u8]) -> Res<Vec<u8>>;
     /// `buf`: the caller's buffer (ciphertext in; left as the library leaves it, also on failure)
     fn ss_open_in_place(&self, mode: &ModeR, sk_r: &[u8], enc: &[u8], info: &[u8], buf: &mut Vec<u8>, aad: &[u8], tag: &[u8]) -> Res<Vec<u8>>;
@@ -312,12 +347,38 @@ pub trait Suite: Sync {
 /// Moves `v` into a slot owned by the harness, scans the slot for the patterns, runs the value's
 /// destructor in place, and scans the same memory again (volatile reads).
 pub fn scan_drop<T>(v: T, pats: &[Vec<u8>]) -> Res<Scan> {
-    let mut slot = MaybeUninit::<T>::new(v);
+    // The slot starts at a byte offset 0..7 from a 16-byte aligned address (as far as T's own
+    // alignment allows; byte arrays such as a shared secret can sit anywhere, e.g. behind a one-byte
+    // tag in a caller's struct). The offset is a function of the first pattern, so a case replays.
+    #[repr(C, align(16))]
+    struct Arena<T> {
+        pad: [u8; 16],
+        room: MaybeUninit<T>,
+        tail: [u8; 16],
+    }
+    let mut arena = MaybeUninit::<Arena<T>>::uninit();
+    let want = pats.first().map(|q| q.iter().fold(0usize, |a, b| a.wrapping_mul(31).wrapping_add(*b as usize))).unwrap_or(0) % 8;
+    let al = std::mem::align_of::<T>();
+    let room = unsafe { std::ptr::addr_of_mut!((*arena.as_mut_ptr()).room) } as *mut u8;
+    // align-1 values start `want` bytes before the aligned field (inside the padding in front of it)
+    let slot_ptr = if al == 1 { unsafe { room.sub(want) } } else { room } as *mut T;
+    debug_assert!(slot_ptr as usize % al == 0);
+    unsafe { std::ptr::write(slot_ptr, v) };
+    struct SlotRef<T>(*mut T);
+    impl<T> SlotRef<T> {
+        fn as_mut_ptr(&mut self) -> *mut T {
+            self.0
+        }
+    }
+    let mut slot = SlotRef(slot_ptr);
     let n = std::mem::size_of::<T>();
     let p = slot.as_mut_ptr() as *const u8;
     let read = |p: *const u8| -> Vec<u8> { (0..n).map(|i| unsafe { std::ptr::read_volatile(p.add(i)) }).collect() };
     let before = read(p);
-    guard(|| unsafe { std::ptr::drop_in_place(slot.as_mut_ptr()) })?;
+    crate::heapscan::arm(pats);
+    let dropped = guard(|| unsafe { std::ptr::drop_in_place(slot.as_mut_ptr()) });
+    let (heap_hits, heap_blocks) = crate::heapscan::disarm();
+    dropped?;
     let after = read(p);
     let locate = |hay: &[u8], q: &Vec<u8>| -> Vec<usize> {
         if q.is_empty() || hay.len() < q.len() {
@@ -325,7 +386,7 @@ pub fn scan_drop<T>(v: T, pats: &[Vec<u8>]) -> Res<Scan> {
         }
         (0..hay.len() - q.len() + 1).filter(|i| &hay[*i..*i + q.len()] == &q[..]).collect()
     };
-    Ok(Scan { size: n, before: pats.iter().map(|q| locate(&before, q)).collect(), after: pats.iter().map(|q| locate(&after, q)).collect() })
+    Ok(Scan { size: n, before: pats.iter().map(|q| locate(&before, q)).collect(), after: pats.iter().map(|q| locate(&after, q)).collect(), heap_hits, heap_blocks })
 }
 
 pub trait AeadInfo: Aead {
@@ -383,6 +444,7 @@ struct RCtx<A: Aead, K: Kdf, M: Kem>(AeadCtxR<A, K, M>);
 
 impl<A: Aead + 'static, K: Kdf + 'static, M: Kem + 'static> Sender for SCtx<A, K, M> {
     fn seal(&mut self, pt: &[u8], aad: &[u8]) -> Res<Vec<u8>> {
+        let aad = alias(pt, aad, true);
         gh(|| self.0.seal(pt, aad))
     }
     fn seal_in_place(&mut self, buf: &mut [u8], aad: &[u8]) -> Res<Vec<u8>> {
@@ -390,7 +452,8 @@ impl<A: Aead + 'static, K: Kdf + 'static, M: Kem + 'static> Sender for SCtx<A, K
         guard(|| tag.to_bytes().to_vec())
     }
     fn export(&self, ctx: &[u8], len: usize) -> Res<Vec<u8>> {
-        let mut out = vec![0u8; len];
+        // a caller's buffer is not necessarily zeroed: the result must not depend on what it held
+        let mut out: Vec<u8> = (0..len).map(|i| 0xA5u8 ^ (i as u8).wrapping_mul(7)).collect();
         gh(|| self.0.export(ctx, &mut out))?;
         Ok(out)
     }
@@ -420,7 +483,8 @@ impl<A: Aead + 'static, K: Kdf + 'static, M: Kem + 'static> Receiver for RCtx<A,
         gh(|| self.0.open_in_place_detached(buf, aad, &tag))
     }
     fn export(&self, ctx: &[u8], len: usize) -> Res<Vec<u8>> {
-        let mut out = vec![0u8; len];
+        // a caller's buffer is not necessarily zeroed: the result must not depend on what it held
+        let mut out: Vec<u8> = (0..len).map(|i| 0xA5u8 ^ (i as u8).wrapping_mul(7)).collect();
         gh(|| self.0.export(ctx, &mut out))?;
         Ok(out)
     }
@@ -442,7 +506,25 @@ impl<A: Aead + 'static, K: Kdf + 'static, M: Kem + 'static> Receiver for RCtx<A,
     }
 }
 
+/// Argument aliasing: when two byte-string arguments have equal contents a caller may well pass the
+/// very same buffer for both. `side` staggers it so that for a given length one peer aliases and the
+/// other does not, or both do (len % 3 == 0: receiver only, 1: sender only, 2: both).
+fn alias<'a>(primary: &'a [u8], other: &'a [u8], sender: bool) -> &'a [u8] {
+    let on = match primary.len() % 3 {
+        0 => !sender,
+        1 => sender,
+        _ => true,
+    };
+    if on && !primary.is_empty() && primary == other {
+        primary
+    } else {
+        other
+    }
+}
+
 fn bundle<'a>(kind: ModeKind, psk: &'a [u8], psk_id: &'a [u8]) -> Res<Option<PskBundle<'a>>> {
+    // psk and psk_id with equal contents: one buffer for both
+    let psk_id = if psk == psk_id { psk } else { psk_id };
     if kind.has_psk() {
         let b = guard(|| PskBundle::new(psk, psk_id))?.map_err(|e| Fail::Decode("psk".into(), e.into()))?;
         Ok(Some(b))
@@ -565,48 +647,62 @@ impl<A: AeadInfo + 'static, K: KdfInfo + 'static, M: KemInfo + 'static> Suite fo
         }
     }
     fn setup_sender(&self, mode: &ModeS, pk_r: &[u8], info: &[u8], rng: &mut ScriptRng) -> Res<(Vec<u8>, Box<dyn Sender>)> {
+        let info = alias(&mode.psk, alias(&mode.psk_id, info, true), true);
         let mode = mode_s::<M>(mode)?;
-        let pk_r: M::PublicKey = dec("pkR", pk_r)?;
+        let pk_r = cached::<M::PublicKey>("pkR", pk_r)?;
+        let pk_r: &M::PublicKey = &pk_r;
         let (enc, ctx) = gh(|| hpke::setup_sender::<A, K, M, _>(&mode, &pk_r, info, rng))?;
         let enc = guard(|| enc.to_bytes().to_vec())?;
         Ok((enc, Box::new(SCtx(ctx))))
     }
     fn setup_receiver(&self, mode: &ModeR, sk_r: &[u8], enc: &[u8], info: &[u8]) -> Res<Box<dyn Receiver>> {
+        let info = alias(&mode.psk, alias(&mode.psk_id, info, false), false);
         let mode = mode_r::<M>(mode)?;
-        let sk_r: M::PrivateKey = dec("skR", sk_r)?;
+        let sk_r = cached::<M::PrivateKey>("skR", sk_r)?;
+        let sk_r: &M::PrivateKey = &sk_r;
         let enc: M::EncappedKey = dec("enc", enc)?;
         let ctx = gh(|| hpke::setup_receiver::<A, K, M>(&mode, &sk_r, &enc, info))?;
         Ok(Box::new(RCtx(ctx)))
     }
     fn ss_seal(&self, mode: &ModeS, pk_r: &[u8], info: &[u8], pt: &[u8], aad: &[u8], rng: &mut ScriptRng) -> Res<(Vec<u8>, Vec<u8>)> {
+        let info = alias(&mode.psk, alias(&mode.psk_id, info, true), true);
+        let aad = alias(pt, alias(info, aad, true), true);
         let mode = mode_s::<M>(mode)?;
-        let pk_r: M::PublicKey = dec("pkR", pk_r)?;
+        let pk_r = cached::<M::PublicKey>("pkR", pk_r)?;
+        let pk_r: &M::PublicKey = &pk_r;
         let (enc, ct) = gh(|| hpke::single_shot_seal::<A, K, M, _>(&mode, &pk_r, info, pt, aad, rng))?;
         Ok((guard(|| enc.to_bytes().to_vec())?, ct))
     }
-    fn ss_seal_in_place(&self, mode: &ModeS, pk_r: &[u8], info: &[u8], pt: &[u8], aad: &[u8], rng: &mut ScriptRng) -> Res<(Vec<u8>, Vec<u8>, Vec<u8>)> {
+    fn ss_seal_in_place(&self, mode: &ModeS, pk_r: &[u8], info: &[u8], buf: &mut Vec<u8>, aad: &[u8], rng: &mut ScriptRng) -> Res<(Vec<u8>, Vec<u8>, Vec<u8>)> {
+        let info = alias(&mode.psk, alias(&mode.psk_id, info, true), true);
+        let aad = alias(info, aad, true);
         let mode = mode_s::<M>(mode)?;
-        let pk_r: M::PublicKey = dec("pkR", pk_r)?;
-        let mut buf = pt.to_vec();
-        let (enc, tag) = gh(|| hpke::single_shot_seal_in_place_detached::<A, K, M, _>(&mode, &pk_r, info, &mut buf, aad, rng))?;
-        Ok((guard(|| enc.to_bytes().to_vec())?, buf, guard(|| tag.to_bytes().to_vec())?))
+        let pk_r = cached::<M::PublicKey>("pkR", pk_r)?;
+        let pk_r: &M::PublicKey = &pk_r;
+        let (enc, tag) = gh(|| hpke::single_shot_seal_in_place_detached::<A, K, M, _>(&mode, &pk_r, info, &mut buf[..], aad, rng))?;
+        Ok((guard(|| enc.to_bytes().to_vec())?, buf.clone(), guard(|| tag.to_bytes().to_vec())?))
     }
     fn ss_open(&self, mode: &ModeR, sk_r: &[u8], enc: &[u8], info: &[u8], ct: &[u8], aad: &[u8]) -> Res<Vec<u8>> {
+        let info = alias(&mode.psk, alias(&mode.psk_id, info, false), false);
+        let aad = alias(info, aad, false);
         let mode = mode_r::<M>(mode)?;
-        let sk_r: M::PrivateKey = dec("skR", sk_r)?;
+        let sk_r = cached::<M::PrivateKey>("skR", sk_r)?;
+        let sk_r: &M::PrivateKey = &sk_r;
         let enc: M::EncappedKey = dec("enc", enc)?;
         gh(|| hpke::single_shot_open::<A, K, M>(&mode, &sk_r, &enc, info, ct, aad))
     }
     fn ss_open_in_place(&self, mode: &ModeR, sk_r: &[u8], enc: &[u8], info: &[u8], buf: &mut Vec<u8>, aad: &[u8], tag: &[u8]) -> Res<Vec<u8>> {
         let mode = mode_r::<M>(mode)?;
-        let sk_r: M::PrivateKey = dec("skR", sk_r)?;
+        let sk_r = cached::<M::PrivateKey>("skR", sk_r)?;
+        let sk_r: &M::PrivateKey = &sk_r;
         let enc: M::EncappedKey = dec("enc", enc)?;
         let tag: AeadTag<A> = dec("tag", tag)?;
         gh(|| hpke::single_shot_open_in_place_detached::<A, K, M>(&mode, &sk_r, &enc, info, &mut buf[..], aad, &tag))?;
         Ok(buf.clone())
     }
     fn encap(&self, pk_r: &[u8], sender: Option<(&[u8], &[u8])>, rng: &mut ScriptRng) -> Res<(Vec<u8>, Vec<u8>)> {
-        let pk_r: M::PublicKey = dec("pkR", pk_r)?;
+        let pk_r = cached::<M::PublicKey>("pkR", pk_r)?;
+        let pk_r: &M::PublicKey = &pk_r;
         let sender: Option<(M::PrivateKey, M::PublicKey)> = match sender {
             Some((sk, pk)) => Some((dec("skS", sk)?, dec("pkS", pk)?)),
             None => None,
@@ -615,7 +711,8 @@ impl<A: AeadInfo + 'static, K: KdfInfo + 'static, M: KemInfo + 'static> Suite fo
         Ok((ss.0.to_vec(), guard(|| enc.to_bytes().to_vec())?))
     }
     fn decap(&self, sk_r: &[u8], pk_s: Option<&[u8]>, enc: &[u8]) -> Res<Vec<u8>> {
-        let sk_r: M::PrivateKey = dec("skR", sk_r)?;
+        let sk_r = cached::<M::PrivateKey>("skR", sk_r)?;
+        let sk_r: &M::PrivateKey = &sk_r;
         let pk_s: Option<M::PublicKey> = match pk_s {
             Some(b) => Some(dec("pkS", b)?),
             None => None,
@@ -625,7 +722,8 @@ impl<A: AeadInfo + 'static, K: KdfInfo + 'static, M: KemInfo + 'static> Suite fo
         Ok(ss.0.to_vec())
     }
     fn encap_scan(&self, pk_r: &[u8], sender: Option<(&[u8], &[u8])>, rng: &mut ScriptRng) -> Res<(Vec<u8>, Scan)> {
-        let pk_r: M::PublicKey = dec("pkR", pk_r)?;
+        let pk_r = cached::<M::PublicKey>("pkR", pk_r)?;
+        let pk_r: &M::PublicKey = &pk_r;
         let sender: Option<(M::PrivateKey, M::PublicKey)> = match sender {
             Some((sk, pk)) => Some((dec("skS", sk)?, dec("pkS", pk)?)),
             None => None,
@@ -636,7 +734,8 @@ impl<A: AeadInfo + 'static, K: KdfInfo + 'static, M: KemInfo + 'static> Suite fo
         Ok((bytes, scan))
     }
     fn decap_scan(&self, sk_r: &[u8], pk_s: Option<&[u8]>, enc: &[u8]) -> Res<(Vec<u8>, Scan)> {
-        let sk_r: M::PrivateKey = dec("skR", sk_r)?;
+        let sk_r = cached::<M::PrivateKey>("skR", sk_r)?;
+        let sk_r: &M::PrivateKey = &sk_r;
         let pk_s: Option<M::PublicKey> = match pk_s {
             Some(b) => Some(dec("pkS", b)?),
             None => None,
